@@ -25,6 +25,13 @@ EPISODE_WALL_LIMIT = 20.0   # seconds of real time for one episode (typical: 0.1
 
 
 def _alarm(signum, frame):
+    # an exception raised while the interpreter runs a gc callback (Hypothesis installs one) is "ignored": a tight loop
+    # that allocates runs it all the time, so such a shot is skipped and the next one (50 ms later) is used
+    f = frame
+    while f is not None:
+        if f.f_code.co_name == 'gc_callback':
+            return
+        f = f.f_back
     raise EpisodeHang()
 
 
@@ -63,7 +70,7 @@ class EpisodeCheck:
         monitors = self.make_monitors(episode)
         runner = Runner(episode, monitors)
         old = signal.signal(signal.SIGALRM, _alarm)
-        signal.setitimer(signal.ITIMER_REAL, EPISODE_WALL_LIMIT, 0.5)  # repeating: a shot can be lost in a gc callback
+        signal.setitimer(signal.ITIMER_REAL, EPISODE_WALL_LIMIT, 0.05)  # repeating: shots inside a gc callback are skipped
         try:
             try:
                 runner.run_prefix()
@@ -80,7 +87,11 @@ class EpisodeCheck:
                 except Exception:
                     partial = []
                 if self.hang_is_finding and where != '?':
-                    return partial + [(f'hang@{where}', note)], True, ['hang']
+                    # one bucket: the frame in which the alarm lands inside an endless loop changes from shot to shot
+                    self.hang_findings = getattr(self, 'hang_findings', 0) + 1
+                    if self.hang_findings >= 3:
+                        self.stop_after_this = note      # each further one costs the wall limit again
+                    return partial + [('hang:episode-exceeds-the-wall-limit', note)], True, ['hang']
                 self.hangs.append(note)
                 if len(self.hangs) >= 3:
                     self.stop_after_this = note
@@ -107,6 +118,8 @@ class EpisodeCheck:
         budget = self.reduce_budget if budget is None else budget
         best = copy.deepcopy(episode)
         tries = 0
+        if signature.startswith('hang'):
+            return best      # every attempt costs the wall limit: the episode is kept as found
 
         def still_fails(candidate) -> bool:
             nonlocal tries
